@@ -77,7 +77,16 @@ fn parse_datetime(ts: &str) -> Result<DateTime<Utc>> {
     let dt = DateTime::parse_from_rfc3339(ts).map_err(|e| {
         Error::Encoding(format!("Can't parse DateTime: {:?}", e))
     })?;
-    Ok(dt.with_timezone(&Utc))
+    let dt = dt.with_timezone(&Utc);
+    // RFC 3339 only has four-digit years. An offset can push the instant out
+    // of that range in UTC, and such an expiry could not be written back.
+    if !(0..=9999).contains(&dt.year()) {
+        return Err(Error::Encoding(format!(
+            "DateTime {} is outside of the years 0000 to 9999 in UTC",
+            ts
+        )));
+    }
+    Ok(dt)
 }
 
 fn format_datetime(ts: &DateTime<Utc>) -> String {
